@@ -1,6 +1,7 @@
 """C03 -- exact landscape = k-th largest tent everywhere.  Spec: SweepCore / LandscapeSweep / TraceSweep / DumpSweep."""
 import json, os, tempfile
 from .. import tlc
+from ..common import mktempdir as _mktempdir
 from ..common import Emb, EXACT_EMBS, DEC_EMBS, unfl, decode_lattice, run_driver_parallel
 
 RULE = ("M: every multiset of <=MaxBars bars with even endpoints in 0..MaxT (intended design and as-coded model). "
@@ -141,7 +142,7 @@ def run(ctx):
     r = tlc.run_tlc("LandscapeSweep", workers=4, constants=dict(MaxT=6, MaxBars=3, WithShortcut=True), invariants=["Correct"])
     ctx.model("LandscapeSweep as coded, plain Correct (expected to fail: known finding)", r, expect_violation="Correct")
     # ---- R
-    dump = os.path.join(tempfile.mkdtemp(prefix="c03dump_"), "dump.json")
+    dump = os.path.join(_mktempdir(prefix="c03dump_"), "dump.json")
     MaxT, MaxBars = (8, 3) if quick else (8, 4)
     r = tlc.run_tlc("DumpSweep", workers=1, env={"DUMP_FILE": dump}, constants=dict(MaxT=MaxT, MaxBars=MaxBars), heap="4g")
     if r["error"] or not os.path.exists(dump):
